@@ -31,7 +31,7 @@ VARIABLES l,        \* position in Rec
           graded,   \* FALSE: the run's database is outside the grid of Ribbit.tla - nothing can be judged
           live,     \* FALSE: the database was rejected at start-up - no further events are expected
           raw,      \* raw[c] = [tr, cls, n]: raw connections opened and not yet finished ("cls" = "none" before send)
-          exhausted,\* a connection group could not be opened completely (descriptor exhaustion, family "flood")
+          exhausted,\* a connection group was opened with the descriptor limit lowered (family "flood")
           ended,    \* the run has delivered its "end" event
           seq,
           viol, devs, nungraded, nquery, nrows
@@ -144,10 +144,11 @@ Step ==
               /\ nrows' = IF e.res.out = "rows" THEN nrows + Len(e.res.rows) ELSE nrows
               /\ UNCHANGED <<raw, exhausted, ended>>
            ELSE IF e.op = "open" THEN
-              \* every connection is accepted; only the flood family drives the process out of descriptors
-              LET good == ~Has(e.c) /\ (e.res.connected = e.n \/ (fam = "flood" /\ e.res.connected <= e.n)) IN
+              \* every connection is established (the kernel completes the handshake whatever the server does)
+              LET good == ~Has(e.c) /\ e.res.connected = e.n IN
               /\ raw' = Append(raw, [c |-> e.c, tr |-> e.tr, cls |-> "none", n |-> e.n])
-              /\ exhausted' = (exhausted \/ e.res.connected < e.n)
+              \* family flood: the driver leaves the server descriptors for only half of this group
+              /\ exhausted' = (exhausted \/ fam = "flood")
               /\ viol' = IF good /\ seqok THEN viol ELSE Append(viol, l)
               /\ UNCHANGED <<devs, ended, nquery, nrows>>
            ELSE IF e.op = "send" THEN
